@@ -33,11 +33,19 @@ class Base:
         d = vf.run_dir(self.prop)
         stats = vf.run_harness(binary, self.comp, seed, tier, d, extra=self.harness_extra(tier))
         vf.run_driver(driver, self.comp, d)
-        return self.compare(d, stats)
+        r = self.compare(d, stats)
+        # the corpus (witnesses of recorded findings, minimised earlier failures) runs on every check
+        corpus = os.path.join(vf.VERIF, "corpus", self.prop + ".txt")
+        if os.path.exists(corpus):
+            rc = self.run_cases(vf.read_lines(corpus), "-corpus")
+            r["property_failures"] = rc["property_failures"] + r["property_failures"]
+            r["model_mismatches"] = rc["model_mismatches"] + r["model_mismatches"]
+            r["stats"]["corpus_cases"] = rc["stats"].get("cases", 0)
+            r["stats"]["evaluations"] = r["stats"].get("evaluations", 0) + rc["stats"].get("evaluations", 0)
+        return r
 
     def harness_extra(self, tier):
-        corpus = os.path.join(vf.VERIF, "corpus", self.prop + ".txt")
-        return ["--corpus", corpus] if os.path.exists(corpus) else []
+        return []
 
     def run_cases(self, case_lines, tag="-replay"):
         """Run given case blocks through implementation and model; return compare() result."""
